@@ -93,6 +93,27 @@ pub struct TransmuteRec {
     pub operand: String,
     pub operand_base: String,
     pub fn_ret: Ty,
+    /// last path segment of `fn_` and the fn's parameter names (`self` first when it has a receiver)
+    pub fn_last: String,
+    pub fn_params: Vec<String>,
+}
+
+/// A place where a crate function is called (or merely mentioned, `is_call == false`).  Emitted
+/// only for callees through which a re-branding site has to be lifted (private `unsafe fn`s).
+#[derive(Clone)]
+pub struct CallSiteRec {
+    pub file: String,
+    pub caller: String,
+    pub caller_last: String,
+    pub caller_unsafe: bool,
+    pub caller_pub: bool,
+    pub caller_params: Vec<String>,
+    pub callee: String,
+    pub callee_path: String,
+    pub args: Vec<String>,
+    pub arg_bases: Vec<String>,
+    pub guards: Vec<(String, bool)>,
+    pub is_call: bool,
 }
 
 pub struct AutoImplRec {
@@ -110,6 +131,9 @@ pub struct Table {
     pub callbacks: Vec<CallbackRec>,
     pub collect_impls: Vec<CollectRec>,
     pub transmutes: Vec<TransmuteRec>,
+    /// all call sites seen (pass 2); filtered to the relevant callees before emission
+    pub all_sites: Vec<CallSiteRec>,
+    pub call_sites: Vec<CallSiteRec>,
     pub auto_impls: Vec<AutoImplRec>,
     pub unclassified: Vec<String>,
     /// informational: item-level macro invocations / definitions that were not expanded
@@ -149,6 +173,8 @@ struct FileInfo {
     module: String,
     imports: HashMap<String, String>,
     local_names: HashSet<String>,
+    /// names of all functions / methods defined in the file (for classifying unsafe regions)
+    fn_names: HashSet<String>,
 }
 
 #[derive(Clone, Debug)]
@@ -679,6 +705,16 @@ impl Krate {
 fn index_items(k: &mut Krate, fi: usize, items: &[syn::Item]) {
     for it in items {
         match it {
+            syn::Item::Fn(f) => {
+                k.files[fi].fn_names.insert(f.sig.ident.to_string());
+            }
+            syn::Item::Impl(im) => {
+                for ii in &im.items {
+                    if let syn::ImplItem::Fn(m) = ii {
+                        k.files[fi].fn_names.insert(m.sig.ident.to_string());
+                    }
+                }
+            }
             syn::Item::Use(u) => {
                 let mut v = Vec::new();
                 flatten_use("", &u.tree, &mut v);
@@ -821,6 +857,8 @@ struct FnCtx<'a> {
     fn_pub: bool,
     fn_ret: Ty,
     receiver: String,
+    fn_last: String,
+    fn_params: Vec<String>,
 }
 
 fn fn_family(name: &str) -> bool {
@@ -921,6 +959,55 @@ struct TransmuteVisitor<'a, 'b> {
     guards: Vec<(String, bool)>,
     cast_next: Option<(*const syn::ExprCall, bool)>,
     out: Vec<TransmuteRec>,
+    sites: Vec<CallSiteRec>,
+    unclassified: Vec<String>,
+}
+
+/// Files whose `unsafe` regions must consist of recognised re-branding operations only.
+const REBRAND_FILES: &[&str] = &["dynamic_roots.rs"];
+
+impl<'a, 'b> TransmuteVisitor<'a, 'b> {
+    fn site(&self, callee: String, callee_path: String, args: Vec<&syn::Expr>, is_call: bool) -> CallSiteRec {
+        CallSiteRec {
+            file: self.cx.k.files[self.cx.file].name.clone(),
+            caller: self.cx.qual.clone(),
+            caller_last: self.cx.fn_last.clone(),
+            caller_unsafe: self.cx.fn_unsafe,
+            caller_pub: self.cx.fn_pub,
+            caller_params: self.cx.fn_params.clone(),
+            callee,
+            callee_path,
+            args: args.iter().map(|a| squash(a)).collect(),
+            arg_bases: args.iter().map(|a| operand_base(a)).collect(),
+            guards: self.guards.clone(),
+            is_call,
+        }
+    }
+
+    /// Is `e` one recognised operation: a transmute (possibly cast to a raw pointer) or a call of
+    /// a function defined in the same file (a helper the analysis follows)?
+    fn recognised_op(&self, e: &syn::Expr) -> bool {
+        let names = &self.cx.k.files[self.cx.file].fn_names;
+        match strip_expr(e) {
+            syn::Expr::Cast(c) => self.recognised_op(&c.expr),
+            syn::Expr::Call(c) => {
+                if is_transmute_call(c).is_some() {
+                    return true;
+                }
+                match strip_expr(&c.func) {
+                    syn::Expr::Path(p) => p.path.segments.last().map(|s| names.contains(&s.ident.to_string())).unwrap_or(false),
+                    _ => false,
+                }
+            }
+            syn::Expr::MethodCall(m) => names.contains(&m.method.to_string()),
+            syn::Expr::Unsafe(u) => self.single_op_block(&u.block),
+            _ => false,
+        }
+    }
+
+    fn single_op_block(&self, b: &syn::Block) -> bool {
+        b.stmts.len() == 1 && matches!(&b.stmts[0], syn::Stmt::Expr(e, None) if self.recognised_op(e))
+    }
 }
 
 fn strip_expr(e: &syn::Expr) -> &syn::Expr {
@@ -972,7 +1059,41 @@ impl<'ast, 'a, 'b> Visit<'ast> for TransmuteVisitor<'a, 'b> {
         }
         syn::visit::visit_expr_cast(self, node);
     }
+    fn visit_expr_unsafe(&mut self, node: &'ast syn::ExprUnsafe) {
+        let fname = &self.cx.k.files[self.cx.file].name;
+        if REBRAND_FILES.contains(&fname.as_str()) && !self.single_op_block(&node.block) {
+            self.unclassified.push(format!("unsafe block in {} ({}) is not a single transmute / helper call: {}", self.cx.qual, fname, squash(&node.block)));
+        }
+        syn::visit::visit_expr_unsafe(self, node);
+    }
+    fn visit_expr_method_call(&mut self, node: &'ast syn::ExprMethodCall) {
+        let mut args: Vec<&syn::Expr> = vec![&*node.receiver];
+        args.extend(node.args.iter());
+        let s = self.site(node.method.to_string(), format!(".{}", node.method), args, true);
+        self.sites.push(s);
+        syn::visit::visit_expr_method_call(self, node);
+    }
+    fn visit_expr_path(&mut self, node: &'ast syn::ExprPath) {
+        // a function named as a value (not in call position): cannot be followed
+        if let Some(l) = node.path.segments.last() {
+            let s = self.site(l.ident.to_string(), squash(&node.path), vec![], false);
+            self.sites.push(s);
+        }
+    }
     fn visit_expr_call(&mut self, node: &'ast syn::ExprCall) {
+        if is_transmute_call(node).is_none() {
+            if let syn::Expr::Path(p) = strip_expr(&node.func) {
+                if let Some(l) = p.path.segments.last() {
+                    let s = self.site(l.ident.to_string(), squash(&p.path), node.args.iter().collect(), true);
+                    self.sites.push(s);
+                }
+                // the callee path is in call position: only the arguments are visited
+                for a in &node.args {
+                    self.visit_expr(a);
+                }
+                return;
+            }
+        }
         if let Some(seg) = is_transmute_call(node) {
             let (src, dst) = match &seg.arguments {
                 syn::PathArguments::AngleBracketed(ab) => {
@@ -1003,7 +1124,14 @@ impl<'ast, 'a, 'b> Visit<'ast> for TransmuteVisitor<'a, 'b> {
                 operand,
                 operand_base: base,
                 fn_ret: self.cx.fn_ret.clone(),
+                fn_last: self.cx.fn_last.clone(),
+                fn_params: self.cx.fn_params.clone(),
             });
+            // `transmute` itself is in call position; visit the operand only
+            for a in &node.args {
+                self.visit_expr(a);
+            }
+            return;
         }
         syn::visit::visit_expr_call(self, node);
     }
@@ -1023,7 +1151,26 @@ impl<'ast, 'a, 'b> Visit<'ast> for TransmuteVisitor<'a, 'b> {
                 operand: format!("{}!(..)", squash(&node.path)),
                 operand_base: String::new(),
                 fn_ret: self.cx.fn_ret.clone(),
+                fn_last: self.cx.fn_last.clone(),
+                fn_params: self.cx.fn_params.clone(),
             });
+        }
+        // identifiers inside macro arguments may name a helper: recorded as unanalysable mentions
+        fn idents(ts: proc_macro2::TokenStream, out: &mut Vec<String>) {
+            for t in ts {
+                match t {
+                    proc_macro2::TokenTree::Group(g) => idents(g.stream(), out),
+                    proc_macro2::TokenTree::Ident(i) => out.push(i.to_string()),
+                    _ => {}
+                }
+            }
+        }
+        let mut ids = Vec::new();
+        idents(node.tokens.clone(), &mut ids);
+        let mp = format!("{}!(..)", squash(&node.path));
+        for id in ids {
+            let s = self.site(id, mp.clone(), vec![], false);
+            self.sites.push(s);
         }
     }
     fn visit_item(&mut self, _node: &'ast syn::Item) {
@@ -1071,6 +1218,18 @@ fn do_fn(
         fn_pub: matches!(vis, syn::Visibility::Public(_)),
         fn_ret,
         receiver,
+        fn_last: sig.ident.to_string(),
+        fn_params: sig
+            .inputs
+            .iter()
+            .map(|a| match a {
+                syn::FnArg::Receiver(_) => "self".to_string(),
+                syn::FnArg::Typed(pt) => match &*pt.pat {
+                    syn::Pat::Ident(pi) => pi.ident.to_string(),
+                    _ => "_".to_string(),
+                },
+            })
+            .collect(),
     };
     if inherent {
         let mut cbs = Vec::new();
@@ -1078,9 +1237,16 @@ fn do_fn(
         tbl.callbacks.extend(cbs);
     }
     if let Some(b) = block {
-        let mut v = TransmuteVisitor { cx: &cx, guards: vec![], cast_next: None, out: vec![] };
+        let mut v = TransmuteVisitor { cx: &cx, guards: vec![], cast_next: None, out: vec![], sites: vec![], unclassified: vec![] };
         v.visit_block(b);
+        let fname = &k.files[fi].name;
+        if cx.fn_unsafe && REBRAND_FILES.contains(&fname.as_str()) && !v.single_op_block(b) {
+            // the whole body of an `unsafe fn` is an unsafe region
+            v.unclassified.push(format!("body of unsafe fn {} ({}) is not a single transmute / helper call", cx.qual, fname));
+        }
         tbl.transmutes.extend(v.out);
+        tbl.all_sites.extend(v.sites);
+        tbl.unclassified.extend(v.unclassified);
     }
 }
 
@@ -1232,7 +1398,7 @@ fn main() {
         match syn::parse_file(&text) {
             Ok(ast) => {
                 let module = if n == "lib.rs" { String::new() } else { n.trim_end_matches(".rs").to_string() };
-                k.files.push(FileInfo { name: n.clone(), module, imports: HashMap::new(), local_names: HashSet::new() });
+                k.files.push(FileInfo { name: n.clone(), module, imports: HashMap::new(), local_names: HashSet::new(), fn_names: HashSet::new() });
                 asts.push(ast);
             }
             Err(e) => {
@@ -1308,6 +1474,28 @@ fn main() {
     for (fi, ast) in asts.iter().enumerate() {
         facts_items(&k, fi, &ast.items, &mut tbl);
     }
+    // Call sites through which a re-branding site may have to be lifted: callees that are private
+    // `unsafe fn`s holding a transmute in a re-branding file, and (transitively) their private
+    // unsafe callers.  Matching is by last path segment, crate-wide (over-approximation: fail closed).
+    let mut relevant: Vec<String> = Vec::new();
+    for t in &tbl.transmutes {
+        if REBRAND_FILES.contains(&t.file.as_str()) && t.fn_unsafe && !t.fn_pub && !relevant.contains(&t.fn_last) {
+            relevant.push(t.fn_last.clone());
+        }
+    }
+    for _ in 0..8 {
+        let mut grew = false;
+        for s in &tbl.all_sites {
+            if relevant.contains(&s.callee) && s.caller_unsafe && !s.caller_pub && !relevant.contains(&s.caller_last) {
+                relevant.push(s.caller_last.clone());
+                grew = true;
+            }
+        }
+        if !grew {
+            break;
+        }
+    }
+    tbl.call_sites = tbl.all_sites.iter().filter(|s| relevant.contains(&s.callee)).cloned().collect();
     tbl.unclassified.extend(k.unclassified.iter().cloned());
     // unclassified nodes inside recorded facts are surfaced at top level too
     fn scan(t: &Ty, out: &mut Vec<String>, wher: &str) {
